@@ -259,7 +259,16 @@ def run(ctx):
         if not sub: continue
         t0 = time.time()
         ctx.k_budget = {key: v // 3 for key, v in k_total.items()}      # the model comparisons are spread over the process counts
-        impl, crashed = fw.run_impl_lines(ctx, "drv_cycle", [c["line"] for c in sub], nprocs=P, name="c09_p%d" % P, timeout=1500)
+        # node layout of the topology-aware option: half of the cases on one node (raptor's default PPN), half on several
+        # nodes (one rank per node on 2-3 ranks, two per node on 4)
+        impl = {}; crashed = []
+        for ppn, part in ((None, sub[0::2]), ("2" if P == 4 else "1", sub[1::2] if P > 1 else [])):
+            if not part: continue
+            r_, cr_ = fw.run_impl_lines(ctx, "drv_cycle", [c["line"] for c in part], nprocs=P, name="c09_p%d_%s" % (P, ppn or "d"), timeout=1500,
+                                        env=({"PPN": ppn} if ppn else None))
+            impl.update(r_); crashed += list(cr_ or [])
+            if ppn: ctx.count("cases_on_several_nodes", len(part))
+        if P == 1: r_, cr_ = fw.run_impl_lines(ctx, "drv_cycle", [c["line"] for c in sub[1::2]], nprocs=P, name="c09_p1_b", timeout=1500); impl.update(r_)
         t1 = time.time()
         for c in sub: judge(ctx, c, impl.get(c["cid"]), model_lines)
         ctx.notes.append("P=%d: %d cases, implementation %.1fs, oracle %.1fs" % (P, len(sub), t1 - t0, time.time() - t1))
